@@ -531,6 +531,17 @@ class Types:
         self._in_ret.add(key)
         try:
             out = EMPTY
+            h = self.hints.get("%s()" % f.qualname)
+            if h:
+                for spec in h["types"]:
+                    mod, _, cn = spec.partition(":")
+                    m = self.prog.modules.get(mod)
+                    if m is not None and cn in m.classes:
+                        out |= inst(m.classes[cn])
+                if h.get("optional"):
+                    out |= NONE
+                self._ret[key] = out
+                return out
             if f.node.returns is not None:
                 out = self.ann(f.node.returns, f.module, selfcls)
                 if any(a[0] == "list" for a in out) and _is_generator(f.node):
